@@ -35,7 +35,7 @@ def gen_call(tape, pool_size, term_of, ctx_symbols, richgen, ctx, exclude=()):
     kinds = kinds + [(2, "substitute_shared"), (2, "parse_long"), (2, "foreign"), (1, "script_serialize"),
                      (2, "resimplify"), (2, "model_value_shared"), (1, "factory"), (1, "register_dwf"),
                      (1, "declare_freshlike"), (1, "serialize_custom"), (1, "odd_constant"), (1, "lookalike_array"), (1, "closer_logic"), (2, "rewriter_long"),
-                     (1, "build_noncurrent")]
+                     (1, "build_noncurrent"), (2, "substitute_interp")]
     kinds = [(w, n) for w, n in kinds if n not in exclude]
     k = tape.weighted(kinds, "call.kind")
     i = tape.draw(pool_size, "call.formula")
@@ -111,6 +111,13 @@ def gen_call(tape, pool_size, term_of, ctx_symbols, richgen, ctx, exclude=()):
         # a script (optionally with set-logic) parsed by the client's long-lived SmtLibParser
         spec["logic"] = tape.choice([None, None, "QF_LRA", "QF_LIA", "QF_BV", "QF_UFLIRA", "LRA"], "parse_long.logic")
         spec["numerals"] = tape.chance(1, 2, "parse_long.numerals")
+    if k == "substitute_interp":
+        # substitution under a supplied interpretation of f / g / P; the same (few) applications are
+        # interpreted again and again with tape-chosen bodies and the same or no ordinary substitution
+        spec["fun"] = tape.choice(["f", "f", "g", "P"], "interp.fun")
+        spec["body"] = tape.draw(4, "interp.body")
+        spec["subs"] = tape.draw(3, "interp.subs")
+        spec["two"] = tape.chance(1, 3, "interp.two")
     if k == "substitute":
         subs = rg.subterms(t)
         pairs = []
@@ -183,6 +190,33 @@ def perform(env, spec, f, term, user_symbols):
             from pysmt.substituter import MSSubstituter
             return MSSubstituter(env).substitute(f, m)
         return f.substitute(m)
+    if k == "substitute_interp":
+        from pysmt.substituter import FunctionInterpretation
+        mgr = env.formula_manager
+        I, B = bp.to_pysmt_type(bp.INT, env), bp.to_pysmt_type(bp.BOOL, env)
+        fsorts = {"f": ["Fun", [bp.INT], bp.INT], "g": ["Fun", [bp.INT, bp.INT], bp.BOOL],
+                  "P": ["Fun", [bp.INT, bp.BOOL], bp.BOOL]}
+        x, y, pb = mgr.Symbol("x", I), mgr.Symbol("y", I), mgr.Symbol("p", B)
+        a, b, c = mgr.Symbol("ia", I), mgr.Symbol("ib", I), mgr.Symbol("ic", B)
+
+        def interp(name, body):
+            if name == "f":
+                return FunctionInterpretation([a], [mgr.Plus(a, mgr.Int(1)), mgr.Times(a, mgr.Int(2)), mgr.Int(0),
+                                                    mgr.Minus(a, mgr.Int(3))][body])
+            if name == "g":
+                return FunctionInterpretation([a, b], [mgr.LT(a, b), mgr.Equals(a, b), mgr.TRUE(), mgr.LE(b, a)][body])
+            return FunctionInterpretation([a, c], [c, mgr.GT(a, mgr.Int(0)), mgr.Not(c), mgr.FALSE()][body])
+        syms = dict((n, mgr.Symbol(n, bp.to_pysmt_type(fsorts[n], env))) for n in ("f", "g", "P"))
+        apps = mgr.And(mgr.Equals(mgr.Function(syms["f"], [x]), mgr.Function(syms["f"], [mgr.Plus(y, mgr.Int(1))])),
+                       mgr.Function(syms["g"], [x, mgr.Function(syms["f"], [y])]),
+                       mgr.Function(syms["P"], [x, pb]))
+        formula = mgr.And(f, apps) if f.get_type().is_bool_type() else apps
+        interps = {syms[spec["fun"]]: interp(spec["fun"], spec["body"])}
+        if spec.get("two"):
+            other = {"f": "g", "g": "P", "P": "f"}[spec["fun"]]
+            interps[syms[other]] = interp(other, (spec["body"] + 1) % 4)
+        subs = [{}, {x: mgr.Int(2)}, {y: mgr.Plus(x, mgr.Int(1))}][spec.get("subs", 0)]
+        return formula.substitute(subs, interpretations=interps)
     if k == "substitute_shared":
         # spec["_dict"] is supplied by the caller: the client's long-lived dict (aged
         # environment) or a brand-new dict with the same content (reference environment)
